@@ -16,46 +16,31 @@ PID = 'C05'
 AVOID_KNOWN = True
 
 REGIONS = {
-    'nested-slice':
-        "v[lo:hi] on a view v with bit offset s = v._start_index > 0 and (lo + s) % 8 > hi "
-        "(only possible if lo + s < 8): rejected with ValueError (line 263 compares a length with a bit offset)",
-    'reversed-slice':
-        "a[lo:hi] with hi < lo: ValueError, or an object with negative size (len() raises) instead of the empty array",
-    'repeated-index':
-        "a[idx] = vals where some index occurs with both True and False and its LAST occurrence is True: "
-        "the code ends with False (NumPy: last wins)",
-    'index-partial-update':
-        "a[idx] = vals where a False-valued index is out of range and the True-valued ones are in range: "
-        "IndexError is raised after the True ones have been written",
     'empty-skips-checks':
-        "a[empty idx] = vals and a[k:k] = vals with len(vals) != 0 return silently (NumPy: shape mismatch ValueError); "
-        "a[[]] (empty Python list) raises IndexError",
-    'aliasing-overlap':
-        "x op= y, x[lo:hi] = y where x and y are views of the same array whose byte ranges overlap but are not "
-        "identical: the first/last byte of x is written before the middle bytes of y are read",
-    'sum-shape-axis':
-        "sum(shape, axis) with an axis that is not the last one (incl. axis = -ndim): the result keeps the last "
-        "axis divided by 8 (per-byte counts) instead of NumPy's shape",
+        "a[empty idx] = vals and a[k:k] = vals / = misaligned packed operand return silently before the value is "
+        "validated (NumPy: shape mismatch ValueError); a[[]] (empty Python list) raises IndexError",
     'resize-view':
-        "resize on a slice view (NumPy refuses): the view is detached (its bytes are copied) and the parent's bits "
-        "of its last byte become the new elements instead of False",
-    'resize-dirty-padding':
-        "resize of an array built on a user data_buffer whose padding bits are set: they become elements",
-    'negative-size':
-        "_PackedBoolArray(size=n) with -8 < n + start < 0 … is accepted (size < 0)",
+        "resize on a slice view: the bits of the PARENT that follow the view inside the view's last byte are cleared "
+        "(also when the call then raises ValueError because a view cannot be resized); when the byte count does not "
+        "change the call succeeds (NumPy refuses to resize a view) and the view then extends over the parent's bits",
+    'raw-stop-before-start':
+        "_PackedBoolArray(data_buffer=…, start_index=s, stop_index=e) with e < s is accepted (negative size)",
 }
 
 RULE = ("array-level histories on stand-alone _PackedBoolArray objects: a base array (constructor by size, "
-        "from_boolean_array with start padding 0..7, or raw data_buffer with start/stop) of n bits with a random or "
-        "swept bit pattern; slices [a:b] (incl. None bounds and negative stops) and slices of slices; then every "
-        "operation {int/slice/index-array read; int assignment; slice assignment x {bool, ndarray, aligned packed "
-        "operand}; index assignment x {bool, ndarray} with empty / repeated / out-of-range indices; &= |= ^= x "
-        "{bool, packed}; invert; & | ^ ~ copies; sum(); sum(shape, axis); copy; resize; data_array; "
-        "_extract_first_middle_last(mask 0/1); len} through the view, each followed by a dump of EVERY live object "
-        "(so writes through views are checked on the parent and on sibling views). quick: ~300 random histories "
-        "n <= 70. thorough: exhaustive sweep n <= 26 x base padding {0,3} x all (a,b) x all operations x operand "
-        "kinds, exhaustive nested sweep n <= 18 x all (a,b) x all (c,d), plus random long arrays (<= 3000 bits). "
-        "non-trivial = uses a slice that is not byte aligned at one end. AVOID_KNOWN avoids exactly the REGIONS.")
+        "from_boolean_array with start padding 0..7, or raw data_buffer with start/stop and arbitrary (dirty) padding "
+        "bits) of n bits with a random or swept bit pattern; slices [a:b] (None bounds, negative stops, stops before "
+        "the start = empty, stops below the bit offset of the view) and slices of slices; then every operation "
+        "{int/slice/index-array read; int assignment; slice assignment x {bool, ndarray, aligned packed operand}; "
+        "index assignment x {bool, ndarray} with empty / repeated (conflicting) / out-of-range indices; &= |= ^= x "
+        "{bool, packed operand: fresh array, or a disjoint / overlapping / identical view of the same buffer}; invert; "
+        "& | ^ ~ copies; sum(); sum(shape, axis) for every axis incl. negative ones; copy; resize of owners (also with "
+        "dirty padding) and of views; negative sizes; data_array; _extract_first_middle_last(mask 0/1); len} through "
+        "the view, each followed by a dump of EVERY live object (so writes through views are checked on the parent "
+        "and on sibling views). quick: ~300 random histories n <= 70. thorough: exhaustive sweep n <= 26 x base "
+        "padding {0,3} x all (a,b) incl. reversed x all operations x operand kinds, exhaustive nested sweep n <= 18 x "
+        "all (a,b) x all (c,d), plus random long arrays (<= 3000 bits). non-trivial = uses a slice that is not byte "
+        "aligned at one end. AVOID_KNOWN avoids exactly the REGIONS.")
 
 ASSUMPTIONS = ["numpy view / packbits / unpackbits / ufunc.at / resize(refcheck=False) semantics as written in "
                "Model/Packed.lean",
@@ -130,15 +115,12 @@ class H(object):
         return self.objs[name]
 
     def slice_ok(self, v, lo, hi):
-        """Is v[lo:hi] inside the supported, deviation-free domain?  (lo, hi may be None; hi may be < 0)"""
+        """True if v[lo:hi] is accepted, None if it is rejected by code, twin and model alike
+        (start outside [0, size] or stop > size).  (lo, hi may be None; hi may be < 0)"""
         L = 0 if lo is None else lo
         E = v.n if hi is None else (hi + v.n if hi < 0 else hi)
-        if L < 0 or L > v.n or E < 0 or E > v.n:
-            return None                      # rejected by code, twin and model alike: always allowed
-        if E < L:
-            return False                     # reversed-slice
-        if hi is not None and (L + v.s) % 8 > E:
-            return False                     # nested-slice (only when v.s > 0)
+        if L < 0 or L > v.n or E > v.n:
+            return None
         return True
 
     def slice(self, name, v, lo, hi, step=None):
@@ -150,6 +132,7 @@ class H(object):
         if ok and (step is None or step == 1):
             L = 0 if lo is None else lo
             E = v.n if hi is None else (hi + v.n if hi < 0 else hi)
+            E = max(E, L)                                      # a stop before the start: empty
             self.objs[name] = V(name, E - L, (v.abit + L) % 8, v.root, v.abit + L, False)
             return self.objs[name]
         return None
@@ -185,23 +168,6 @@ class H(object):
         rng.shuffle(idx)
         return idx
 
-    def fix_vals(self, v, idx, vals):
-        """Keep (idx, vals) out of the known index-assignment regions."""
-        if not AVOID_KNOWN:
-            return vals
-        vals = list(vals)
-        last = {}
-        for i, b in zip(idx, vals):
-            last[i] = b
-        seen_false = set(i for i, b in zip(idx, vals) if not b)
-        for k, (i, b) in enumerate(zip(idx, vals)):
-            if i in seen_false and last[i]:                   # repeated-index region: make it consistent
-                vals[k] = True
-        bad = [i for i in idx if i < 0 or i >= v.n]
-        if bad:                                               # index-partial-update region
-            vals = [True] * len(vals)
-        return vals
-
     def op(self, v, kind=None):
         rng = self.rng
         kinds = ['get', 'getidx', 'set', 'setslice_b', 'setslice_a', 'setslice_p', 'setidx_b', 'setidx_a',
@@ -221,10 +187,6 @@ class H(object):
             self.emit('p.set %s i=%d v=%s' % (v.name, i, rng.choice('TF')))
         elif kind in ('setslice_b', 'setslice_a', 'setslice_p'):
             lo, hi = self.rand_bounds(v)
-            ok = self.slice_ok(v, lo, hi)
-            if ok is False and AVOID_KNOWN:
-                lo, hi = None, None
-                ok = True
             L = 0 if lo is None else lo
             E = n if hi is None else (hi + n if hi < 0 else hi)
             m = max(E - L, 0)
@@ -252,8 +214,6 @@ class H(object):
                 vals = rand_bits(rng, len(idx))
                 if rng.random() < 0.06 and (idx or not AVOID_KNOWN):
                     vals = vals + [True]                       # length mismatch: rejected
-                else:
-                    vals = self.fix_vals(v, idx, vals)
                 self.emit('p.setidx %s idx=%s vals=%s%s' % (v.name, ','.join(map(str, idx)) or '_', bits_str(vals), tail))
         elif kind == 'iop_b':
             self.emit('p.iop %s op=%s v=%s' % (v.name, rng.choice(['and', 'or', 'xor']), rng.choice('TF')))
@@ -307,7 +267,7 @@ class H(object):
                 d = rng.choice(cands)
                 lo = v.abit + 8 * d - root.abit
                 y = V('?', n, v.s, v.root, v.abit + 8 * d, False)
-                if (AVOID_KNOWN and self.overlap(v, y)) or self.slice_ok(root, lo, lo + n) is not True:
+                if self.slice_ok(root, lo, lo + n) is not True:
                     return
                 yn = self.fresh('y')
                 self.slice(yn, root, lo, lo + n)
@@ -328,8 +288,8 @@ class H(object):
             hi = hi - n if hi < n else hi                      # negative stop
         elif r < 0.36:
             lo, hi = rng.choice([(-1, hi), (n + 1, None), (lo, n + 1), (lo, -n - 1)])   # rejected by all three
-        elif r < 0.40 and not AVOID_KNOWN:
-            lo, hi = hi, lo                                    # reversed
+        elif r < 0.42:
+            lo, hi = hi, lo                                    # reversed: the empty slice
         return lo, hi
 
 
@@ -355,18 +315,18 @@ def random_history(rng, nmax, nops):
             h.emit('p.new z data=b%s start=8' % '.'.join(map(str, data)))
             h.emit('p.new z data=b%s n=3' % '.'.join(map(str, data)))
             h.emit('p.new z n=5 stop=5')
-        if AVOID_KNOWN or rng.random() < 0.5:
+        if rng.random() < 0.3:                                 # clean padding (otherwise dirty)
             for k in range(e, 8 * nb):
                 data[k // 8] &= ~(1 << (k % 8))
         a = h.raw('a', data, s, e)
     h.emit('p.arr a')
     h.emit('p.len a')
+    if rng.random() < 0.05:                                    # negative sizes are rejected
+        h.emit('p.new z n=%d%s' % (rng.choice([-1, -3, -8, -9]), rng.choice(['', ' start=3', ' start=7'])))
     views = [a]
     for _ in range(rng.randint(1, 3)):
         par = rng.choice(views)
         lo, hi = h.rand_bounds(par)
-        if h.slice_ok(par, lo, hi) is False and AVOID_KNOWN:
-            continue
         v = h.slice(h.fresh('v'), par, lo, hi, rng.choice([None, None, None, 1, 2]) if rng.random() < 0.1 else None)
         if v is not None:
             views.append(v)
@@ -376,6 +336,8 @@ def random_history(rng, nmax, nops):
         if v.name not in h.objs:
             continue
         h.op(v)
+        if not v.own and rng.random() < 0.06:
+            resize_view(h, rng, v)
         if rng.random() < 0.04:
             grow_and_drop(h, rng, views)
     if rng.random() < 0.3:
@@ -385,12 +347,35 @@ def random_history(rng, nmax, nops):
     return h.lines
 
 
+def resize_view(h, rng, v):
+    """resize of a slice view (NumPy and the class refuse unless the byte count is unchanged)"""
+    root = h.objs.get(v.root)
+    if root is None or v.name not in h.objs:
+        return
+    nbytes = v.bytes()[1] - v.bytes()[0]
+    newn = v.n + rng.choice([1, 2, 5, 9, 20])
+    nd = (newn + v.s + 7) // 8
+    if AVOID_KNOWN:
+        if nd == nbytes:
+            return                                             # resize-view: accepted
+        # resize-view: the parent's bits behind the view in its last byte are cleared; make that a no-op
+        end = v.abit + v.n
+        if end % 8 != 0:
+            lo = max(end, root.abit) - root.abit
+            hi = min((end + 7) // 8 * 8, root.abit + root.n) - root.abit
+            if lo < hi:
+                h.emit('p.setslice %s lo=%d hi=%d v=F' % (root.name, lo, hi))
+    h.emit('p.resize %s n=%d' % (v.name, newn))
+    if nd == nbytes:
+        v.n = newn                                             # still a view of the same bytes
+    h.emit('p.dump')
+    h.emit('p.len %s' % v.name)
+
+
 def grow_and_drop(h, rng, views):
     """resize the base array (owner) and forget its views"""
     root = views[0]
     if root.name not in h.objs:
-        return
-    if root.name in h.dirty and AVOID_KNOWN:
         return
     for v in list(h.objs.values()):
         if v.root == root.name and v.name != root.name:
@@ -413,18 +398,12 @@ def sumshape_lines(h, rng):
     name = h.fresh('s')
     h.frombool(name, rand_bits(rng, n), rng.choice([None, None, 0, 3]))
     shape = ','.join(map(str, dims))
-    axes = [None, len(dims) - 1, -1, 0, len(dims)]
-    if not AVOID_KNOWN:
-        axes += list(range(1, len(dims) - 1)) + [-len(dims)]
+    axes = [None] + list(range(-len(dims) - 1, len(dims) + 2))
     for ax in axes:
-        if AVOID_KNOWN and ax is not None and ax != 0 and (ax % len(dims)) != len(dims) - 1 and ax < len(dims):
-            continue
-        if AVOID_KNOWN and ax == -1 and len(dims) == 1:
-            pass
         h.emit('p.sumshape %s shape=%s%s' % (name, shape, '' if ax is None else ' axis=%d' % ax))
     if rng.random() < 0.3:
         h.emit('p.sumshape %s shape=%s' % (name, ','.join(map(str, dims[:-1] + [dims[-1] + 1]))))
-        if len(dims) == 1 or not AVOID_KNOWN:
+        if True:
             h.emit('p.sumshape %s shape=%s axis=1' % (name, ','.join(map(str, [2] + dims[:-1] + [dims[-1] // 2]))))
 
 
@@ -439,11 +418,9 @@ def sweep_single(rng, nmax):
     for n in range(0, nmax + 1):
         for s0 in (None, 3):
             for a in range(0, n + 1):
-                for b in range(a, n + 1):
+                for b in list(range(a, n + 1)) + ([a - 1, 0] if a > 0 else []):
                     h = H(rng)
                     base = h.frombool('a', rand_bits(rng, n), s0)
-                    if h.slice_ok(base, a, b) is False and AVOID_KNOWN:
-                        continue
                     v = h.slice('v', base, a, b)
                     if v is None:
                         continue
@@ -455,7 +432,7 @@ def sweep_single(rng, nmax):
                     h.emit('p.sum v')
                     # the same bounds as a slice assignment on the parent
                     h.emit('p.setslice a lo=%d hi=%d v=%s' % (a, b, rng.choice('TF')))
-                    h.emit('p.setslice a lo=%d hi=%d vals=%s' % (a, b, bits_str(rand_bits(rng, b - a))))
+                    h.emit('p.setslice a lo=%d hi=%d vals=%s' % (a, b, bits_str(rand_bits(rng, max(b - a, 0)))))
                     if b < n:
                         h.emit('p.setslice a lo=%d hi=%d v=T' % (a, b - n))
                     h.emit('p.dump')
@@ -475,8 +452,6 @@ def sweep_nested(rng, nmax):
                 k = 0
                 for c in range(0, b - a + 1):
                     for d in range(c, b - a + 1):
-                        if h.slice_ok(v, c, d) is False and AVOID_KNOWN:
-                            continue
                         k += 1
                         w = h.slice('w', v, c, d)
                         if w is None:
